@@ -8,6 +8,7 @@
 (*   one data record per surface variable, then per level per variable:         *)
 (*     the 50-byte label (time, level, grid, name, exponent, precision, value   *)
 (*     at (1,1)) and nx*ny bytes packed as spec/ArlPack.tla defines.             *)
+(* Grids with 1000 or more cells in a direction: see GridId.                    *)
 (* Fields are fixed-width text: [t |-> "a", v, n] text left-justified in n      *)
 (* bytes; [t |-> "i", v, n] an integer right-justified; [t |-> "z", v, n] an    *)
 (* integer zero-padded; [t |-> "e", num, den, n] a real in E format (n = 14:    *)
@@ -62,10 +63,17 @@ CivilOfStep(c, t) == CivilOf("std", InstOfStep(c, t))     \* <<y, m, d, H, M, S,
 TimeFields(c, t) == LET cv == CivilOfStep(c, t) IN
   << Zw(cv[1] % 100, 2), Zw(cv[2], 2), Zw(cv[3], 2), Zw(cv[4], 2), Zw(c.ff, 2) >>
 
+\* ---- grid identification (2 characters of every label): a two-digit grid
+\* number, unless a direction has 1000 or more cells; then one character per
+\* direction, CHAR(64 + thousands) ("@" = none, "A" = 1, ...), and the
+\* three-digit NX / NY of the index record hold the remainders
+GridLetter(k) == CASE k = 0 -> "@" [] k = 1 -> "A" [] k = 2 -> "B" [] k = 3 -> "C" [] k = 4 -> "D"
+GridId(c) == IF c.nx >= 1000 \/ c.ny >= 1000 THEN GridLetter(c.nx \div 1000) \o GridLetter(c.ny \div 1000) ELSE "99"
+
 \* ---- records
 Packed(c, name, t, l) == Pack(Field(c, name, t, l))
 Label(c, t, l, name, nexp, precnum, precden, var1) ==
-  TimeFields(c, t) \o << Iw(l, 2), A("99", 2), A(name, 4), Iw(nexp, 4), Ew(precnum, precden), Ew(var1, 1) >>
+  TimeFields(c, t) \o << Iw(l, 2), A(GridId(c), 2), A(name, 4), Iw(nexp, 4), Ew(precnum, precden), Ew(var1, 1) >>
 \* precision = 2^nexp / 254
 DataRecord(c, name, t, l) ==
   LET p == Packed(c, name, t, l) IN
@@ -88,7 +96,7 @@ IndexRecord(c, t) ==
   \* latitude, synch x/y, synch lat/lon, reserved
   << Fw(90, 1, 7, 2), Fw(0, 1, 7, 2), Fw(1, 1, 7, 2), Fw(1, 1, 7, 2), Fw(0, 1, 7, 2), Fw(0, 1, 7, 2),
      Fw(0, 1, 7, 2), Fw(1, 1, 7, 2), Fw(1, 1, 7, 2), Fw(-10, 1, 7, 2), Fw(20, 1, 7, 2), Fw(0, 1, 7, 2) >> \o
-  << Iw(c.nx, 3), Iw(c.ny, 3), Iw(Len(c.levels), 3), Iw(1, 2), Iw(LenH(c), 4) >> \o
+  << Iw(c.nx % 1000, 3), Iw(c.ny % 1000, 3), Iw(Len(c.levels), 3), Iw(1, 2), Iw(LenH(c), 4) >> \o
   FlattenSeqA([li \in 1..Len(c.levels) |-> VarDefLevel(c, t, li)]) \o
   << A("", RecLen(c) - 158 - VarDefLen(c)) >>
 TimeBlock(c, t) ==
